@@ -790,4 +790,15 @@ theorem slow_fast_agree_on_born (head tk : GTree) (changed : List Str) (k : Nat)
   rw [lookupLine_append, hcum, hrest, hfast]
   cases l.who <;> rfl
 
+/-- the rebase variant: the cumulative note of the commit's own tree -/
+theorem slow_rebase_fast_agree_on_born (tk : GTree) (k : Nat) (hk : 1 ≤ k)
+    (hnd : (tk.map (·.1)).Nodup) (p : Str) (j : Nat) (l : GLine)
+    (hl : lineOf tk p j = some l) (hb : l.born = k) :
+    lookupLine (slowLinesRebase tk) p j = lookupLine (perCommitLines k tk) p j := by
+  unfold slowLinesRebase cumulativeLines perCommitLines
+  rw [lookupLine_treeTriples _ tk hnd, lookupLine_treeTriples _ tk hnd, hl]
+  have h1 : decide (1 ≤ l.born) = true := by simp [hb, hk]
+  have h2 : decide (l.born = k) = true := by simp [hb]
+  simp only [h1, h2, if_true]
+
 end GitAi.Remap
